@@ -254,10 +254,16 @@ def run(ctx):
                 last = {}
                 for pi, (r0, r1) in enumerate(exp_pairs):
                     last[(r0, r1)] = pi; last[(r1, r0)] = pi
+                # a pair listed in both orders has two values that may differ in the last bits (the soft minimum sums the atom pairs in another
+                # order): the entry must be one of the values listed for that pair of residues, and the map symmetric to rounding
+                both = {}
+                for pi, (r0, r1) in enumerate(exp_pairs):
+                    both.setdefault((min(r0, r1), max(r0, r1)), []).append(pi)
                 for (r0, r1), pi in last.items():
-                    if not np.array_equal(sq[:, r0, r1], got_d[:, pi]):
+                    cands = both[(min(r0, r1), max(r0, r1))]
+                    if not any(np.array_equal(sq[:, r0, r1], got_d[:, q], equal_nan=True) for q in cands):
                         ok = False
-                if not ok or not np.array_equal(sq, sq.transpose(0, 2, 1)) or sq.shape[1] != max(max(p) for p in exp_pairs) + 1:
+                if not ok or not np.allclose(sq, sq.transpose(0, 2, 1), rtol=1e-5, atol=1e-6, equal_nan=True) or sq.shape[1] != max(max(p) for p in exp_pairs) + 1:
                     viol("squareform", "squareform does not place the distances at [i, j] and [j, i]", rp)
             # model
             if not periodic and not soft:
